@@ -28,7 +28,7 @@ Tickets == << "write", "write", "write", "wstr", "wstr", "wbyte", "wrune", "wrun
               "read", "read", "read", "next", "next", "rbyte", "rbyte", "rrune", "rrune", "rrune",
               "unbyte", "unbyte", "unrune", "unrune", "trunc", "reset", "grow", "grow", "growhuge",
               "readfrom", "readfrom", "writeto", "writeto", "len", "bytes", "string", "nilstr", "rewrite", "rewrite",
-              "poke", "pipefrom", "pipeto" >>
+              "poke", "pipefrom", "pipeto", "wbyterun", "rbyterun" >>
 GenInit == Init /\ nextop = 0
 GenNext ==
   \/ /\ nextop = 0
